@@ -58,8 +58,8 @@ func TestVF_C08(t *testing.T) {
 		"(series split over frames) and a BucketStore (blocks with up to 3 different external label sets; lazy postings on/off) x generated requests (1..3 matchers, 35% on external label names incl. contradicting ones; replica-label lists over external/stored/colliding/absent names in 70%; SkipChunks 1/3). " +
 		"oracle per returned frame: some member label set E of the store that the selectors do not contradict has every label of E not listed as replica label on the frame with E's value, and no label named in the replica list is on the frame; " +
 		"if the selectors contradict every member label set the answer has no series. evaluation = one store answer; distinct/non-trivial = answer with at least one frame, or a contradicting request")
-	nFix := r.N(8, 80)
-	nReq := r.N(60, 120)
+	nFix := r.N(8, 140)
+	nReq := r.N(60, 150)
 	r.Require(int64(nFix*nReq*2), nFix*nReq/3)
 	r.Assume("external label values are non-empty; a selector contradicts external labels E iff some matcher on a name in E does not match E's value (Prometheus matcher semantics)")
 	base := t.TempDir()
